@@ -9,6 +9,7 @@ import (
 
 func init() {
 	vpHarnesses["vpC19_RandomPrime"] = vpC19_RandomPrime
+	vpHarnesses["vpC19_PrimeSqrt"] = vpC19_PrimeSqrt
 	vpHarnesses["vpC19_FourSquares"] = vpC19_FourSquares
 	vpHarnesses["vpC19_FastMod"] = vpC19_FastMod
 	vpHarnesses["vpC19_ModInverse"] = vpC19_ModInverse
@@ -213,4 +214,33 @@ func vpC19_FourSquares() {
 	sum.Add(sum, new(big.Int).Mul(z, z))
 	sum.Add(sum, new(big.Int).Mul(w, w))
 	vpAssert("the four squares sum to n", sum.Cmp(orig) == 0)
+}
+
+// C19 PrimeSqrt (Tonelli-Shanks) for primes of every shape of p-1 = 2^S * Q that
+// matters (p = 3 mod 4: 7; S = 2: 13; S = 4: 17, where the main loop runs more than
+// once; thorough adds 23 and 41) and every a in [0, p): a root is reported exactly when a
+// is a square modulo p, it is reduced and squares to a.
+func vpC19_PrimeSqrt() {
+	primes := []int64{7, 13, 17}
+	if vpParam("more", 0) == 1 {
+		primes = append(primes, 23, 41)
+	}
+	p := primes[vpChoose("p", len(primes))]
+	a := vpIntRange("a", 0, int(p-1))
+	root, ok := PrimeSqrt(big.NewInt(int64(a)), big.NewInt(p))
+	// reference: a is a square iff some x in [0, p) squares to it
+	var hits []bool
+	seen := map[int64]bool{}
+	for x := int64(0); x < p; x++ {
+		if sq := (x * x) % p; !seen[sq] {
+			seen[sq] = true
+			hits = append(hits, int64(a) == sq)
+		}
+	}
+	isSquare := vpAny(hits...)
+	vpAssert("PrimeSqrt reports a root exactly for squares", ok == isSquare)
+	if ok {
+		vpAssert("PrimeSqrt's root is reduced and squares to a", root != nil && root.Sign() >= 0 && root.Cmp(big.NewInt(p)) < 0 &&
+			new(big.Int).Mod(new(big.Int).Mul(root, root), big.NewInt(p)).Int64() == int64(a))
+	}
 }
